@@ -9,6 +9,8 @@ use crate::state::*;
 use crate::twins::{any_model, wrap_any};
 use nalgebra::{DMatrix, DVector};
 
+pub static HANGS: std::sync::atomic::AtomicUsize = std::sync::atomic::AtomicUsize::new(0);
+
 const SPECIALS: [f64; 14] = [
     0.0,
     -0.0,
@@ -60,6 +62,7 @@ pub fn emit_robust_case<T: Sc>(out: &mut Out, c: &StateCase<T>, second: Option<V
     let mut prob = match build_guarded(c, c.init.clone(), 5) {
         None => {
             out.line("outcome build hang");
+            HANGS.fetch_add(1, std::sync::atomic::Ordering::SeqCst);
             out.end();
             return;
         }
@@ -97,6 +100,7 @@ pub fn emit_robust_case<T: Sc>(out: &mut Out, c: &StateCase<T>, second: Option<V
         match r {
             None => {
                 out.line("outcome set hang");
+                HANGS.fetch_add(1, std::sync::atomic::Ordering::SeqCst);
                 out.end();
                 return;
             }
@@ -130,7 +134,10 @@ pub fn emit_robust_case<T: Sc>(out: &mut Out, c: &StateCase<T>, second: Option<V
         }
     });
     match r {
-        None => out.line("outcome fit hang"),
+        None => {
+            out.line("outcome fit hang");
+            HANGS.fetch_add(1, std::sync::atomic::Ordering::SeqCst);
+        }
         Some(Err(m)) => out.line(&format!("outcome fit panic {}", m)),
         Some(Ok((f, has_stats, band))) => {
             out.line(&format!(
@@ -178,6 +185,10 @@ pub fn stream(out: &mut Out, seed: u64, thorough: bool) {
     let mut rng = Rng::new(seed ^ 0xC08);
     let n = if thorough { 6000 } else { 300 };
     for i in 0..n {
+        // a hang is a violation already; hung watchdog threads keep burning CPU, so stop early
+        if HANGS.load(std::sync::atomic::Ordering::SeqCst) >= 3 {
+            break;
+        }
         if i % 3 == 2 {
             one::<f32>(out, &mut rng, i, thorough);
         } else {
